@@ -252,7 +252,8 @@ type Task struct {
 	goid uint64
 	// exiting is set (by the task itself) once the task unwinds during
 	// teardown; simulated primitives are pass-through from then on.
-	exiting bool
+	exiting   bool
+	seenPhase int64
 	// quiet > 0: scheduling points are skipped (harness observation code);
 	// blocking on a held lock still parks.
 	quiet int
@@ -334,7 +335,14 @@ type Run struct {
 	TraceOn bool
 	Trace   []string // scheduler-owned
 
-	endAddr int32 // race: tasks release-merge here at exit
+	// phaseAddr/phaseGen: the harness may read what tasks wrote (endAddr) and
+	// then let them run again; everything the harness did between two
+	// Schedule calls happens-before what tasks do afterwards. The edge is
+	// only created at phase boundaries (quiescent points), so race detection
+	// between tasks within a phase is unaffected.
+	phaseAddr int32
+	phaseGen  int64
+	endAddr   int32 // race: tasks release-merge here at exit
 	// tdSem serialises tasks that unwind during teardown (a native channel:
 	// durably blocking inside the bubble and visible to the race detector).
 	tdSem chan struct{}
@@ -452,7 +460,7 @@ func (r *Run) drainProbes() {
 
 // ---------------------------------------------------------------- goroutine ids
 
-const goidSlots = 1 << 12
+const goidSlots = 1 << 16
 
 var goidKeys [goidSlots]atomic.Uint64
 var goidVals [goidSlots]atomic.Pointer[Task]
@@ -480,7 +488,7 @@ func goid() uint64 {
 }
 
 func registerTask(id uint64, t *Task) {
-	h := (id * 0x9e3779b97f4a7c15) >> 52
+	h := (id * 0x9e3779b97f4a7c15) >> 48
 	for i := uint64(0); i < goidSlots; i++ {
 		s := (h + i) & (goidSlots - 1)
 		if goidKeys[s].Load() == 0 {
@@ -493,7 +501,7 @@ func registerTask(id uint64, t *Task) {
 }
 
 func lookupTask(id uint64) *Task {
-	h := (id * 0x9e3779b97f4a7c15) >> 52
+	h := (id * 0x9e3779b97f4a7c15) >> 48
 	for i := uint64(0); i < goidSlots; i++ {
 		s := (h + i) & (goidSlots - 1)
 		k := goidKeys[s].Load()
@@ -607,10 +615,20 @@ func (t *Task) park(m parkMsg) {
 	<-t.wake
 	ab := atomic.LoadInt32(&r.aborting) != 0
 	raceEnable()
+	if g := r.loadPhase(); g != t.seenPhase {
+		t.seenPhase = g
+		raceAcquire(unsafe.Pointer(&r.phaseAddr))
+	}
 	if ab {
 		t.abortExit()
 	}
 }
+
+//go:norace
+func (r *Run) loadPhase() int64 { return r.phaseGen }
+
+//go:norace
+func (r *Run) bumpPhase() { r.phaseGen++ }
 
 // abortExit unwinds the calling task during teardown. Unwinding tasks are
 // serialised through tdSem; while unwinding (deferred functions), simulated
@@ -938,6 +956,8 @@ func (r *Run) clockAdvance() {
 // fair selects round-robin scheduling without consuming the tape (drain phases).
 func (r *Run) Schedule(fair bool, stop func() bool) Outcome {
 	clocked := r.Cfg.TickNs > 0 || r.Cfg.ClockP > 0 || r.Clk.isReplay
+	raceRelease(unsafe.Pointer(&r.phaseAddr))
+	r.bumpPhase()
 	for {
 		synctest.Wait()
 		r.drain()
